@@ -6,6 +6,9 @@ use super::tape::Ev;
 pub const ALPHABET: &[char] = &[
     '{', '}', '[', ']', ':', ',', '"', '\\', '/', '-', '+', '.', 'e', 'E', '0', '1', '2', '3', '4', '5', '6', '7', '8', '9', ' ', 't', 'f', 'n',
     'u', 'l', 's', 'r', 'a', 'b', '\t', '\n', '\r', '\u{0}', '\u{1f}', '\u{7f}', 'é', '€', '😀', '\u{feff}', 'D', 'd', 'c', 'C', 'x',
+    // non-ASCII characters whose low byte is a significant ASCII character (space, LF, quote, '[', '{', ':', ',', '0', 'a', backslash):
+    // a classification done on a truncated `c as u8` shows at once
+    '\u{2020}', '\u{010a}', '\u{0122}', '\u{015b}', '\u{017b}', '\u{013a}', '\u{012c}', '\u{0130}', '\u{0161}', '\u{015c}',
 ];
 
 pub const K_NONE: u8 = 0;
